@@ -163,10 +163,12 @@ def plan(tier):
     else:
         h = Solve(n=5, target_type="stabilizer", det="probabilistic")
         h.parallel = True
-        jobs.append((h, {"time_budget": 5400, "chunk_paths": 16}))
+        h.partial_ok = True
+        jobs.append((h, {"time_budget": 2 * 3600, "chunk_paths": 16}))
         # all 32768 labelled graphs on 6 vertices, compile() with forced outcome 1 (the reference execution still
         # quantifies over every outcome vector)
         h = Solve(n=6, target_type="stabilizer", det=1)
         h.parallel = True
+        h.partial_ok = True
         jobs.append((h, {"time_budget": 4 * 3600, "chunk_paths": 16}))
     return jobs
